@@ -35,6 +35,13 @@ func killUser(uid ptttype.UID, userID *ptttype.UserID_t) error {
 		log.Errorf("killUser: unable to delete home-path: userID: %v e: %v", userID, err)
 	}
 
+	// release the slot in the user-id index as well (pttbbs kill_user: setuserid(num, "")),
+	// otherwise the id stays searchable and the slot is never found free again.
+	err = cache.SetUserID(uid, &ptttype.EMPTY_USER_ID)
+	if err != nil {
+		log.Errorf("killUser: unable to release user-id: uid: %v e: %v", uid, err)
+	}
+
 	emptyUser := &ptttype.UserecRaw{}
 	err = passwdSyncUpdate(uid, emptyUser)
 	if err != nil {
